@@ -230,7 +230,7 @@ bool Directory::read(String& name, bool& isDir)
     if(!*pattern || fnmatch(pattern, str, 0) == 0)
     {
       isDir = dent->d_type == DT_DIR;
-      if(dirsOnly && !isDir)
+      if(dirsOnly && !isDir && dent->d_type != DT_LNK && dent->d_type != DT_UNKNOWN)
         continue;
       if(!isDir && (dent->d_type == DT_LNK || dent->d_type == DT_UNKNOWN))
       {
